@@ -116,15 +116,23 @@ func writeFileWithBackup(path string, target []byte) (err error) {
 	}
 	tmpfile := f.Name()
 	_, err = f.Write(target)
+	if err == nil {
+		// keep the permission bits of the file being replaced
+		// (os.CreateTemp creates the temporary file with mode 0600)
+		if fi, e := os.Stat(path); e == nil {
+			err = f.Chmod(fi.Mode().Perm())
+		}
+	}
 	f.Close()
 	if err != nil {
+		os.Remove(tmpfile)
 		return
 	}
-	err = os.Remove(path)
-	if err != nil {
-		return
+	// rename replaces path atomically: at no point is the file missing or incomplete
+	if err = os.Rename(tmpfile, path); err != nil {
+		os.Remove(tmpfile)
 	}
-	return os.Rename(tmpfile, path)
+	return
 }
 
 type walker struct {
